@@ -388,6 +388,7 @@ type Clause struct {
 
 type LoopSpec struct {
 	Assumes    []*Clause // assumed at the loop head without proof (listed as assumptions)
+	Exits      []*Clause // proved on every edge that leaves the loop (state of the exiting iteration)
 	Invariants []*Clause
 	Decreases  *Clause
 }
@@ -597,6 +598,8 @@ func parseContractFile(path string) (*ContractFile, error) {
 				ls.Invariants = append(ls.Invariants, c)
 			case "assume":
 				ls.Assumes = append(ls.Assumes, c)
+			case "exit":
+				ls.Exits = append(ls.Exits, c)
 			case "decreases":
 				ls.Decreases = c
 			default:
